@@ -121,6 +121,28 @@ func values(args []string) error {
 		}
 	}
 	w.Write(valResult{Case: fmt.Sprintf("break-even sweep (%d values within 8 bytes of the boundary)", band), OK: sweepBad == 0 && band > 20})
+	// absolute sizes: around the 64 KiB block of the stream format, 512 KiB, 1 MiB, several MiB
+	sizedBad := 0
+	for _, n := range []int{65535, 65536, 65537, 524287, 524288, 524289, 1<<20 + 1, 3 << 20, 16 << 20} {
+		for _, cls := range []string{"comp2", "incomp"} {
+			v := sizedValue(cls, n, rnd)
+			c := predis.VerifCompressValue(v)
+			ok, why := storedFormOK(c, v)
+			if ok && !bytes.Equal(c, v) {
+				if d, err := predis.VerifDecompressValue(c); err != nil || !bytes.Equal(d, v) {
+					ok, why = false, fmt.Sprintf("decompress(compress(v)) gives %d bytes, v has %d (%v)", len(d), len(v), err)
+				}
+			}
+			if ok && cls == "comp2" && bytes.Equal(c, v) {
+				ok, why = false, "a compressible value was not compressed"
+			}
+			if !ok {
+				sizedBad++
+				w.Write(valResult{Case: fmt.Sprintf("large value size=%d %s", n, cls), Why: why})
+			}
+		}
+	}
+	w.Write(valResult{Case: "large values (18 sizes x entropies)", OK: sizedBad == 0})
 	// banned commands are rejected locally while compression is enabled
 	sut.FastRefresh()
 	cl, err := simredis.NewCluster(2, 0)
